@@ -16,9 +16,17 @@ trip through the helpers, the validator and the CSV reader is the identity: `C12
 pair; for int64 on the exact domain |raw| ≤ 2^49 (`C12_helpers_int64`). The generated `SetXxxScaled` setters truncated in
 their own code (KF-C12-2); after the repair of the template and the regeneration of profile/mesgdef: `C12_typed`.
 
+The generated accessors of slice and fixed-array fields have their own loops: `C12_typed_slice`, `C12_typed_array`; that every
+row of the regenerated accessor table meets the hypotheses is `C12_typed_table` (hence `C12_typed_all`, `C12_typed_slice_all`).
+Developer fields mapped to native fields, one validator over a sequence of messages: `C12_validator_dev`, `_dev_std`, `_seq`
+(`C12_native_table`). The CSV reader's choice between the scaled and the integer path — a '.' in the text: `C12_csv_text`,
+`C12_csv_cell` (`C12_csv_pairs`).
+
 PROPERTY THEOREMS (audited by ./check): C12_f64_round_err, C12_scale_roundtrip_rounded, C12_profile_pairs_in_range,
 C12_helpers, C12_helpers_int64, C12_value_route, C12_validator, C12_csv, C12_slice, C12_unit_identity,
-C12_datetime, C12_semicircles, C12_typed, C12_typed_invalid, C12_typed_witness_fixed, C12_F07_witness_fixed
+C12_datetime, C12_semicircles, C12_typed, C12_typed_invalid, C12_typed_witness_fixed, C12_F07_witness_fixed,
+C12_typed_table, C12_typed_all, C12_typed_slice, C12_typed_array, C12_typed_slice_all, C12_native_table, C12_validator_dev,
+C12_validator_dev_std, C12_validator_seq, C12_csv_pairs, C12_csv_text, C12_csv_cell
 -/
 namespace Fit.C12
 open Fit.F64 Fit.ScaleOffset Fit.Value Fit.C12L
@@ -481,6 +489,10 @@ theorem C12_csv_cell (ty : IntTy) (hty : ty.bits ≤ 32) (p : Nat) (hp : p < 2 ^
     (hbt : csvTgt bt = some (.int ty)) (pr : Nat × Nat) (hpr : pr ∈ profilePairs) :
     csvCell (apply (toF64 (.int ty) p) pr.1 pr.2) bt pr.1 pr.2 = some (some (scalarV ty p)) := by
   simp only [csvCell, C12_csv_text ty hty p pr hpr, if_true, C12_csv ty hty p hp bt hbt pr hpr]
+
+/-- non-vacuity of the hypotheses on the base type: uint16 (0x84) is read as uint16 by the CSV reader and aligns with it -/
+example : csvTgt 0x84 = some (.int .u16) ∧ align (scalarV .u16 250) 0x84 = true ∧
+    tgtOfBaseType 0x84 = some (.int .u16) := by decide
 
 /-- non-vacuity, and what the theorem excludes: raw 500 at scale 100 is written "5.0" (whole), raw 1 at scale 65536 is
 1.52587890625e-05 (many digits); the float64 nearest to 1e-05 or 2e+19 would be written without a '.' — no scaled value
